@@ -180,6 +180,7 @@ PREFIX_EVENTS = [
     ("simplify",),
     ("branch",),
     ("pickle",),
+    ("blank",),
 ]
 
 
